@@ -30,7 +30,7 @@ PROPS["C02"] = dict(level="exploration", steps=simple("^TestC02"), assumptions=T
 PROPS["C09"] = dict(level="exploration", steps=simple("^(TestC09|TestRefGolden)", shards_quick=2), assumptions=TRUST)
 PROPS["C19"] = dict(level="exploration", steps=simple("^TestC19", shards_thorough=1), assumptions=TRUST)
 PROPS["C06"] = dict(level="fault_enumeration", steps=simple("^TestC06", shards_quick=3), assumptions=TRUST)
-PROPS["C05"] = dict(level="exploration", steps=simple("^TestC05", fuzz="FuzzC05"), assumptions=TRUST)
+PROPS["C05"] = dict(level="exploration", steps=simple("^TestC05", shards_quick=2, fuzz="FuzzC05"), assumptions=TRUST)
 
 
 def twin(run, shards_thorough=16, fuzz=None):
